@@ -381,7 +381,10 @@ func (ex *Exec) appendOp(st *State, s SliceV, extra Value, sliceT types.Type, in
 		// symbolic growth of a scalar buffer: capacity is any value >= newLen (over-approximates growslice)
 		nc := tb.Fresh("cap", BV(64))
 		st.assume(tb.Uge(nc, newLen))
-		st.assume(tb.Ule(nc, ex.c64(1<<47)))
+		// runtime.growslice never more than doubles (plus size-class rounding): nc <= 2*(oldCap+newLen) + 8192
+		st.assume(tb.Ule(newLen, ex.c64(1<<46)))
+		st.assume(tb.Ule(s.Cap, ex.c64(1<<46)))
+		st.assume(tb.Ule(nc, tb.Add(tb.Shl(tb.Add(s.Cap, newLen), ex.c64(1)), ex.c64(8192))))
 		o := st.newObj(ObjSmt, et, "append")
 		o.EW = w
 		o.ALen = nc
